@@ -443,6 +443,8 @@ def replay(case, rec):
 def floors(tier, m):
     out = []
     c = m['counters']
+    if c.get('msh_repetition_checks', 0) < 100 and not m['violation_counts']:
+        out.append('repeated MSH fields recovered: %s' % c.get('msh_repetition_checks'))
     if c.get('builder_path_ok', 0) + c.get('parser_path_ok', 0) < 1000 and not m['violation_counts']:
         out.append('fewer than 1000 judged paths')
     if len(m['seen'].get('versions', ())) != len(tables.versions()):
